@@ -1,7 +1,7 @@
 SPECIFICATION Spec
 CONSTANTS
   MaxCmds = 3
-  MaxReqs = 1
+  MaxReqs = 2
   TrafficChoices = {TRUE, FALSE}
   KindChoices = {"universal", "transcache", "cache"}
   Emit = TRUE
